@@ -50,7 +50,7 @@ class Opts:
         self.allow_zero_call = True  # zero-duration runtime calls
         self.second_thread = True
         self.autograd = False
-        self.launch_names = list(vocab.KERNEL_LAUNCHES)
+        self.launch_names = list(vocab.KERNEL_LAUNCHES) + list(vocab.UNLISTED_LAUNCHES)
         self.device_sync = True
         self.event_sync = False  # cudaEventSynchronize + Event Sync record (stream -1)
         self.lead_op = False  # first file entry is a host operator on its own thread at a drawn (possibly late) time
@@ -217,6 +217,7 @@ class Sim:
         self.ext = 0
         self.host: Dict[int, List[Dict[str, Any]]] = {}
         self.device: List[Dict[str, Any]] = []
+        self.top_slices: Dict[int, List[List[int]]] = {}  # per thread: [start, end) of each top-level subtree in host[tid]
 
     def _next_corr(self) -> int:
         self.corr += 1
@@ -308,7 +309,9 @@ def simulate_rank(prog: Dict[str, Any], epoch: int) -> Sim:
             if anchors:
                 clock = max(0, anchors[0]["ts"] - epoch + th["align"])
         for item in th["items"]:
+            before = len(sim.host.get(tid, []))
             clock = sim.run(tid, item, clock)
+            sim.top_slices.setdefault(tid, []).append([before, len(sim.host.get(tid, []))])
     return sim
 
 
@@ -327,7 +330,20 @@ def merge_order(draw, sim: Sim, extras: bool = True) -> List[Dict[str, Any]]:
     """File order: host events of a thread keep their DFS order (parents before children); the
     sequences (threads, device activities, extra non-complete entries) are interleaved by a drawn
     merge; the first entry is the main thread's first host operator."""
-    seqs: List[List[Dict[str, Any]]] = [list(v) for _, v in sorted(sim.host.items())]
+    seqs: List[List[Dict[str, Any]]] = []
+    for n, (tid, v) in enumerate(sorted(sim.host.items())):
+        v = list(v)
+        slices = sim.top_slices.get(tid, [])
+        # file order of sibling subtrees is arbitrary (Kineto does not promise time order): sometimes permute the
+        # top-level subtrees of a thread, each kept contiguous (parents before children); the very first entry stays
+        if len(slices) >= 3 and slices[0][0] == 0 and pick(draw, [False, False, True]):
+            head = slices[:1] if n == 0 else []
+            rest = slices[1:] if n == 0 else slices
+            rest = list(draw(st.permutations(rest)))
+            covered = sum(b - a for a, b in slices)
+            if covered == len(v):
+                v = [e for a, b in head + rest for e in v[a:b]]
+        seqs.append(v)
     dev = list(sim.device)
     mode = pick(draw, ["by_ts", "shuffled", "shuffled", "device_last"])
     if mode == "shuffled":
